@@ -35,14 +35,19 @@ NODROP_EXEMPT = {
         "probing union branches for the first resolvable one; failure of a probe is the negative answer",
     ("parquet::file::page_index::index_reader::decode_offset_index", "OffsetIndexMetaData::try_from_fast"):
         "fast-path decode; on failure the full decoder is run on the same bytes and its error is returned",
+    ("arrow_avro::codec::Maker::<'a>::resolve_type::{closure#0}", "Maker::resolve_type"):
+        "per-branch probe of a writer union against a non-union reader: an unresolvable branch is recorded as None in writer_to_reader and rejected when such a value is decoded",
     ("parquet::file::properties::BloomFilterPropertiesBuilder::build", "BloomFilterPropertiesBuilder::try_build"):
         "unwrap_or_else(|e| panic!(..e..)) - configuration error, not I/O",
 }
 NODROP_EXEMPT_MODULES = {
+    "parquet::schema::parser::": "parser of the textual message-type syntax (tokens to schema); `.ok()` probes an optional numeric token / logical-type name, no I/O involved",
     "parquet::schema::printer::": "diagnostic pretty-printer writing to a caller supplied sink; not a data path",
 }
 
 NOPANIC_EXEMPT = {
+    ("arrow_ipc::compression::IpcWriteContext::zstd_compressor::{closure#0}", "Compressor::new"): "zstd context allocation with a default level, no sink/source I/O involved",
+    ("arrow_ipc::compression::DecompressionContext::zstd_decompressor::{closure#0}", "Decompressor::new"): "zstd context allocation, no sink/source I/O involved",
     ("parquet::compression::zstd_codec::ZSTDCodec::new", "Compressor::new"): "codec context allocation, no sink/source I/O involved",
     ("parquet::compression::zstd_codec::ZSTDCodec::new", "Decompressor::new"): "codec context allocation, no sink/source I/O involved",
     ("arrow_csv::writer::Writer::<W>::into_inner", "Writer::into_inner"):
